@@ -13,6 +13,7 @@ import (
 	"verif/idxsets"
 	"verif/sched"
 	"verif/vk"
+	"verif/world"
 )
 
 var ctx = context.Background()
@@ -173,6 +174,83 @@ func sequential(res *vk.Result, s idxsets.BlobSet, k0 int, deadline time.Time) {
 	}
 }
 
+// sourceLag: the index can be handed a blob before the blob source holds it (a replica writes to the
+// blob store and to the index in parallel). A blob that became ready while the source could not serve
+// it yet has to stay queued and be indexed by a later out-of-order pass -- not be dropped. Every arrival
+// permutation of {key, permanode, lagging claim}; the lagging claim reaches the source only after the
+// whole set was fed; then an independent delete claim / target pair arriving out of order triggers
+// the next pass. Only claims nobody depends on lag (a lagging key would block signature checks).
+func sourceLag(res *vk.Result, k0 int) {
+	a := world.A()
+	pnL := a.Permanode("lag-pn")
+	pnT := a.Permanode("trigger-pn")
+	delT := a.Delete("trigger-del", pnT.Ref, world.T(5))
+	for vi, lagger := range []hs.Blob{a.Delete("lag-del", pnL.Ref, world.T(1)), a.SetAttr("lag-claim", pnL.Ref, "tag", "x", world.T(1))} {
+		set := []hs.Blob{a.Pub, pnL, lagger}
+		sc := res.Scenario("source-lag/" + lagger.Name)
+		sc.Bound = "all 3! arrival permutations of {key, permanode, claim}; the claim is handed to the index before the blob source holds it, the source gets it after the set was fed, then a delete claim arriving before its target triggers the next out-of-order pass"
+		want := idxsets.Canonical(idxsets.BlobSet{Name: "lag", Canon: []hs.Blob{a.Pub, pnL, lagger, pnT, delT}})
+		run := func(perm []int) (string, string) {
+			in := idxsets.NewInst()
+			for _, pi := range perm {
+				b := set[pi]
+				if b.Ref != lagger.Ref {
+					in.Src.Put(b)
+				}
+				if _, err := in.Ix.ReceiveBlob(context.Background(), b.Ref, strings.NewReader(string(b.Data))); err != nil {
+					return "feed-error", fmt.Sprintf("ReceiveBlob(%s) failed: %v", b.Name, err)
+				}
+				in.Ix.VerifAwaitReindex()
+			}
+			in.Src.Put(lagger)
+			for _, b := range []hs.Blob{delT, pnT} {
+				if err := in.Feed(b); err != nil {
+					return "feed-error", fmt.Sprintf("ReceiveBlob(%s) failed: %v", b.Name, err)
+				}
+				in.Ix.VerifAwaitReindex()
+			}
+			if got := in.Dump(); got != want {
+				return "rows-differ|" + idxsets.RowFamily(got, want), idxsets.DiffDump(got, want)
+			}
+			return "", ""
+		}
+		for pi, perm := range permutations(len(set)) {
+			if !vk.Mine(k0 + vi*6 + pi) {
+				continue
+			}
+			sc.Executions++
+			sc.States++
+			sc.Transitions += int64(len(perm) + 3)
+			cls, detail := run(perm)
+			order := make([]string, len(perm))
+			for i, p := range perm {
+				order[i] = set[p].Name
+			}
+			if len(sc.Samples) < 2 {
+				sc.Sample(map[string]any{"arrival": order, "lagging": lagger.Name})
+			}
+			sc.Outcome(cls + fmt.Sprint(perm))
+			if cls == "" {
+				continue
+			}
+			ok := true
+			for i := 0; i < 5; i++ {
+				if c2, _ := run(perm); c2 != cls {
+					ok = false
+				}
+			}
+			if !ok {
+				res.EngineError("source-lag/%s: arrival %v failed once with %q but not reproducibly", lagger.Name, order, cls)
+				sc.Exhaustive = false
+				continue
+			}
+			res.Violate(sc, "C05|source-lag|"+lagger.Name+"|"+cls,
+				fmt.Sprintf("arrival order %v with %s reaching the blob source only after the set was fed, then %s before %s: %s", order, lagger.Name, delT.Name, pnT.Name, detail),
+				map[string]any{"engine": "source-lag", "lagger": lagger.Name, "perm": perm})
+		}
+	}
+}
+
 func TestCheck(t *testing.T) {
 	defer vk.Cleanup()
 	idxsets.DelayBound = !vk.Thorough()
@@ -193,6 +271,7 @@ func TestCheck(t *testing.T) {
 			sequential(res, s, k0, deadline)
 			k0 += 7
 		}
+		sourceLag(res, k0)
 	}
 	if group == "" || group == "concurrent" {
 		bound := 2
